@@ -658,6 +658,9 @@ int main(int argc, char** argv)
         // sequential: every writer path
         parse("obj-a;lw,pf=1,pf=2,pb=3,ef=4,eb=5,all,eri=0,all,eri=9,erv=3,all,erv=5,all,rel,lr,all,rel"),
         parse("int-d;lw,pb=1,pb=2,pf=3,all,eri=1,eri=1,all,rel,lr,beg,der,nxt,der,nxt,nxt,rel"),
+        // every overload of the handle / iterator interface, for both element types
+        parse("int-a;lw,pb=1,pb=2,pb=3,all,all,beg,ers,ers,erc,der,nxt,der,all,rel,lr,all,all,beg,der,nxt,der,rel"),
+        parse("obj-d;lw,pb=1,pb=2,pb=3,all,all,beg,ers,ers,erc,der,nxt,der,all,rel,lr,all,all,beg,der,nxt,der,rel"),
         // the D2 input: two read handles with nothing erased, non-trivial element type
         parse("obj-d;lr,beg,rel,lr,beg,rel"),
         parse("obj-a;lr,rel,lw,rel,lr,all,rel"),
